@@ -304,6 +304,33 @@ def run(facts, tier):
     # ---------------- T7.6 the two byte writers are the same code
     rules.append(rule_byte_writers(facts, "T7.6").finish())
 
+    # ---------------- T7.7 the reader knows every escape of RFC 8259
+    t7 = Rule("T7.7", "if the JSON string reader decodes simple escapes itself (a decision table on the escape letter), the table covers all of RFC 8259: "
+              "`\\\" \\\\ \\/ \\b \\f \\n \\r \\t` and `\\u`; otherwise it delegates to the lexer library", floor=1)
+    ESC = {ord(c) for c in '"\\/bfnrtu'}
+    tables = 0
+    for f_ in facts.hir("jaq_json"):
+        if not f_["def"].startswith("jaq_json::read::") or f_.get("test"):
+            continue
+        for mm in find(f_["body"], lambda n: n.get("k") == "Match" and n.get("src") == "Normal"):
+            lits = set()
+            for a_ in mm["arms"]:
+                for p_ in find(a_["pat"], lambda n: n.get("k") == "Lit"):
+                    v_ = p_["lit"].get("byte")
+                    if v_ is None and "char" in p_["lit"]:
+                        v_ = ord(p_["lit"]["char"])
+                    if isinstance(v_, int):
+                        lits.add(v_)
+            if len(lits & ESC) >= 4 and {ord("n"), ord("t")} <= lits and lits <= ESC:   # only escape letters: not the dispatch on the first byte of a value
+                tables += 1
+                missing = sorted(chr(c) for c in ESC - lits)
+                wild_delegates = any(strip(a_["pat"]).get("k") in ("Wild", "Bind") and any("escape" in c_ for c_ in callees(a_["body"])) for a_ in mm["arms"])
+                t7.examined(("escape-table", f_["def"]), True, {"fn": f_["def"], "escapes_decoded_by_hand": sorted(chr(c) for c in lits & ESC), "others_delegated": wild_delegates})
+                if missing and not wild_delegates:
+                    t7.violate(f"escape/{''.join(missing)}", f"`{f_['def']}` decodes escapes with its own table, which lacks {missing}: valid JSON text (e.g. `\"http:\\/\\/x\"`) is rejected", where=mm["sp"])
+    t7.examined("tables", True, {"hand_written_escape_tables": tables})
+    rules.append(t7.finish())
+
     explanation = ("Round-trip equality for all values is value-level (and half of it lives in the third-party lexer hifijson): not decided. Decided as constant tables extracted from the macro-expanded typed HIR: "
                    "the 256-row escape tables of the three writers, the numeric escape per string kind in writer and reader, decimals kept as text, identical spelling of special values and keywords, insertion-ordered objects.")
     return finish("C07", "other", rules, t0, tier, explanation, ["hifijson lexes RFC 8259 numbers and strings correctly", "char::escape_default yields \\t \\n \\r \\\\ \\\" for those five characters"])
